@@ -34,10 +34,15 @@ def durTotal : List (Nat × DUnit) → Nat
   | [] => 0
   | (v, u) :: ts => v * u.nanos + durTotal ts
 
-/-- **P20 (durations)** on any candidate outcome: an accepted duration is the signed sum of the written terms -/
+/-- the written total fits a time.Duration (int64 nanoseconds; the most negative value included) -/
+def durValid (neg : Bool) (terms : List (Nat × DUnit)) : Bool :=
+  terms != [] && (if neg then decide (durTotal terms ≤ 2 ^ 63) else decide (durTotal terms ≤ 2 ^ 63 - 1))
+
+/-- **P20 (durations)** on any candidate outcome: an accepted duration is the signed sum of the written terms, and a
+    duration that fits int64 nanoseconds is accepted -/
 def PDur (neg : Bool) (terms : List (Nat × DUnit)) (out : Option Int) : Bool :=
   match out with
-  | none => true
+  | none => !durValid neg terms          -- a duration that fits must be accepted
   | some x => x == (if neg then -(durTotal terms : Int) else (durTotal terms : Int))
 
 end Sygma.C20
